@@ -498,7 +498,11 @@ Inductive pty :=
 | PEnum (vs : list str)
 | PEnumCI (vs : list str)         (* case-insensitive Enum; the values are stored lower-cased (enumtype.go NewEnumType) *)
 | POptional (t : pty) | PVariant (ts : list pty) | PArray (e : pty) (lo hi : Z)
-| PRef (name : str).              (* TypeReference: a local alias, resolved by createDispatch, or unresolved *)
+| PRef (name : str)               (* TypeReference: a name not (yet) resolved; one that stays unresolved has no instances *)
+| PAliasT (name : str).           (* a resolved reference to a TypeAliasType: the alias object bound under that name in the
+                                     loader in effect when the reference was resolved; its definition is looked up when an
+                                     instance is tested (typealiastype.go:135), so definitions may refer to each other in
+                                     any order and recursively *)
 
 Definition in_range (lo hi z : Z) : bool := (lo <=? z) && (z <=? hi).
 
@@ -539,10 +543,10 @@ Fixpoint pinst (t : pty) (v : pval) {struct t} : bool :=
                       | _ => false
                       end
   | PRef _ => false
+  | PAliasT _ => false            (* without the definitions; see pinst_in below *)
   end.
 
-(* local aliases (function.go:155-172): declared in dependency order; a reference is replaced by the
-   already resolved definition, an unknown name stays a TypeReference *)
+(* the entries of one loader scope: local name -> resolved expression of the alias *)
 Fixpoint alias_lookup (env : list (str * pty)) (n : str) : option pty :=
   match env with
   | [] => None
@@ -561,11 +565,6 @@ Fixpoint subst_with (look : str -> option pty) (t : pty) {struct t} : pty :=
   | _ => t
   end.
 
-Definition subst (env : list (str * pty)) : pty -> pty := subst_with (alias_lookup env).
-
-Definition resolve_aliases (decls : list (str * pty)) : list (str * pty) :=
-  fold_left (fun env d => env ++ [(fst d, subst env (snd d))]) decls [].
-
 Definition subst_op_with {bty} (look : str -> option pty) (o : bop pty bty) : bop pty bty :=
   match o with
   | OParam t => OParam (subst_with look t)
@@ -574,8 +573,6 @@ Definition subst_op_with {bty} (look : str -> option pty) (o : bop pty bty) : bo
   | OReqRepParam t => OReqRepParam (subst_with look t)
   | o' => o'
   end.
-
-Definition subst_op {bty} (env : list (str * pty)) : bop pty bty -> bop pty bty := subst_op_with (alias_lookup env).
 
 (* Type.Name() of the fragment types *)
 Definition s_of (l : list N) : str := l.
@@ -594,6 +591,7 @@ Definition pname (t : pty) : str :=
   | PVariant _ => [86;97;114;105;97;110;116]%N
   | PArray _ _ _ => [65;114;114;97;121]%N
   | PRef n => n
+  | PAliasT n => n
   end.
 
 (* the names for which the types package registers a Go constructor (newGoConstructor*:
@@ -673,7 +671,8 @@ Definition scope := list (str * pty).
 Definition lchain := list scope.
 Record pctx := mkCtx { c_loader : lchain }.
 
-(* parentedLoader.LoadEntry (loader.go:198): the parent is asked first, then the loader's own entries *)
+(* parentedLoader.LoadEntry (loader.go:198): the parent is asked first, then the loader's own entries.
+   A scope maps a local name to the resolved expression of its TypeAliasType. *)
 Fixpoint chain_lookup (ch : lchain) (n : str) : option pty :=
   match ch with
   | [] => None
@@ -682,6 +681,63 @@ Fixpoint chain_lookup (ch : lchain) (n : str) : option pty :=
                       | None => alias_lookup own n
                       end
   end.
+
+(* ---- instance-of with alias objects (typealiastype.go:135-145) ----------------------------------------------
+   `look` gives the resolved expression of the alias bound under a name (the alias objects reachable from the
+   types of a function: those of the loader in effect when the function was resolved).  IsInstance of an alias
+   asks its resolved expression, under a guard: the pair (alias, value) that is being tested already counts as
+   true (g.Seen).  `seen` = the aliases entered for the value at hand; descending into the elements of an Array
+   changes the value (to a strict part of it, never equal to a value it is part of), so the guard cannot fire
+   across that step and `seen` starts empty there.  Explicit fuel (depth of the test), None = OutOfFuel. *)
+Fixpoint any_opt {A} (f : A -> option bool) (l : list A) : option bool :=      (* varianttype.go:100: first member that accepts *)
+  match l with
+  | [] => Some false
+  | a :: r => match f a with
+              | Some true => Some true
+              | Some false => any_opt f r
+              | None => None
+              end
+  end.
+
+Fixpoint all_opt {A} (f : A -> option bool) (l : list A) : option bool :=      (* arraytype.go:193: first element that is rejected *)
+  match l with
+  | [] => Some true
+  | a :: r => match f a with
+              | Some true => all_opt f r
+              | Some false => Some false
+              | None => None
+              end
+  end.
+
+Fixpoint pinst_in (look : str -> option pty) (fuel : nat) (seen : list str) (t : pty) (v : pval) {struct fuel} : option bool :=
+  match fuel with
+  | O => None
+  | S f =>
+      match t with
+      | PAliasT n =>
+          if existsb (str_eqb n) seen then Some true                          (* typealiastype.go:139 g.Seen *)
+          else match look n with
+               | Some d => pinst_in look f (n :: seen) d v                    (* :142 the resolved expression *)
+               | None => Some false                                           (* not reachable: a bound name has an entry *)
+               end
+      | POptional t' => match v with VUndef => Some true | _ => pinst_in look f seen t' v end
+      | PVariant ts => any_opt (fun t' => pinst_in look f seen t' v) ts
+      | PArray e lo hi =>
+          match v with
+          | VArr vs => if in_range lo hi (Z.of_nat (length vs))
+                       then all_opt (fun x => pinst_in look f [] e x) vs
+                       else Some false
+          | _ => Some false
+          end
+      | _ => Some (pinst t v)
+      end
+  end.
+
+(* deep enough for every type and value of the correspondence run; the run checks that it was (inst_fuel_ok) *)
+Definition inst_fuel : nat := 200.
+
+Definition cinst (look : str -> option pty) (t : pty) (v : pval) : bool :=
+  match pinst_in look inst_fuel [] t v with Some b => b | None => false end.
 
 (* what ParseType / AddTypes accept of the fragment: NewIntegerType panics with a reported error when
    min > max (integertype.go:150) - for Integer ranges and for the size ranges of String and Array *)
@@ -712,16 +768,24 @@ Definition do_with_loader {A} (c : pctx) (l : lchain) (doer : pctx -> pctx * res
   | (_, Panic p) => (mkCtx save, Panic p)                     (* :93-95 deferred restore while the panic unwinds *)
   end.
 
-(* Resolve :155-166: the declared local types are added to the local loader one after the other; a
-   reference inside a definition is looked up through the chain (parent first); a definition that
-   does not resolve raises a reported error.  Returns the entries bound so far and whether all were. *)
-Fixpoint bind_locals (parents : lchain) (decls : list (str * pty)) (own : scope) : scope * bool :=
-  match decls with
-  | [] => (own, true)
-  | (n, t) :: r =>
-      let t' := subst_with (chain_lookup (own :: parents)) t in
-      if pty_ok t' then bind_locals parents r (own ++ [(n, t')]) else (own, false)
+(* What a type name resolves to while the local types `names` of a function are installed above `parents`
+   (DeferredType.Resolve / c.ParseType, function.go:191): the alias object bound under that name - the
+   parent loaders are asked first - or nothing (the name stays a TypeReference). *)
+Definition local_ref (parents : lchain) (names : list str) (n : str) : option pty :=
+  match chain_lookup parents n with
+  | Some _ => Some (PAliasT n)
+  | None => if existsb (str_eqb n) names then Some (PAliasT n) else None
   end.
+
+(* Resolve :155-171: ALL declared local types are bound in the local loader first (Type2 entries by SetEntry in
+   the loop :164, the parsed declarations together by one px.AddTypes :169, which binds every name :124
+   before it resolves any expression :130) - so every local name is visible in every local definition,
+   wherever it is declared: forward references, chains and mutual recursion resolve.  A definition that does
+   not resolve raises a reported error.  Returns the filled local scope and whether every definition resolved. *)
+Definition bind_locals (parents : lchain) (decls : list (str * pty)) : scope * bool :=
+  let look := local_ref parents (map fst decls) in
+  let own := map (fun d => (fst d, subst_with look (snd d))) decls in
+  (own, forallb (fun d => pty_ok (snd d)) own).
 
 (* createDispatch for every dispatch (:170-172, :189-206) with the type references resolved through the
    loader in effect; a type expression that does not resolve raises a reported error *)
@@ -741,6 +805,14 @@ Definition fndecl := (list (str * pty) * list (list (bop pty N)))%type.
    the resolved dispatches *)
 Definition fnres := ((nat * pcode) + list (dispatch pty N))%type.
 
+(* the doer of Resolve :154-172 *)
+Definition resolve_locals (parents : lchain) (decls : list (str * pty)) (dss : list (list (bop pty N)))
+  : pctx * res (list (dispatch pty N)) :=
+  let '(own, ok) := bind_locals parents decls in
+  let ci' := mkCtx (own :: parents) in                                            (* the local loader, filled *)
+  if ok then (ci', resolve_dispatches (local_ref parents (map fst decls)) dss)
+  else (ci', Panic POther).
+
 Definition resolve_fn (c : pctx) (f : fndecl) : pctx * fnres :=
   let '(decls, dss) := f in
   match run_all dss 0 with                                    (* buildFunction :123: no context involved *)
@@ -748,17 +820,21 @@ Definition resolve_fn (c : pctx) (f : fndecl) : pctx * fnres :=
   | inr _ =>
       let '(c', r) :=
         match decls with
-        | [] => (c, resolve_dispatches (chain_lookup (c_loader c)) dss)          (* :174-178 *)
+        | [] => (c, resolve_dispatches (local_ref (c_loader c) []) dss)           (* :174-178 *)
         | _ =>
             let parents := c_loader c in
             do_with_loader c ([] :: parents)                                      (* :152-153 *)
-              (fun ci =>
-                 let '(own, ok) := bind_locals parents decls [] in
-                 let ci' := mkCtx (own :: parents) in                             (* the local loader, filled *)
-                 if ok then (ci', resolve_dispatches (chain_lookup (own :: parents)) dss)
-                 else (ci', Panic POther))
+              (fun _ => resolve_locals parents decls dss)
         end in
       (c', match r with Ok ds => inr ds | Panic p => inl (0%nat, p) end)
+  end.
+
+(* the alias objects the resolved types of the function refer to: the loader chain that was in effect while it
+   was resolved (the objects live on in the types after the local loader is gone) *)
+Definition fn_look (c : pctx) (f : fndecl) : str -> option pty :=
+  match fst f with
+  | [] => chain_lookup (c_loader c)
+  | decls => chain_lookup (fst (bind_locals (c_loader c) decls) :: c_loader c)
   end.
 
 (* a history: functions built and resolved one after the other in the same context; a Resolve that
